@@ -126,6 +126,9 @@ func newPackage(program *loader.Program, pkgInfo *loader.PackageInfo, plugins []
 
 		changed := false
 		calls := append(fileInfo.undefined, fileInfo.derived...)
+		// Register calls in source order, whether or not an older derived.gen.go already defines
+		// them, so that the output does not depend on what that file held.
+		sort.SliceStable(calls, func(i, j int) bool { return calls[i].Expr.Pos() < calls[j].Expr.Pos() })
 		for _, call := range calls {
 			// log.Printf("call: %v", call.Name)
 			if call.HasUndefined() {
